@@ -94,6 +94,8 @@ def byline_expected(scenario, agree, p, nlines, members=2):
         aborted = False
         for m in range(members):
             cp = f"cp{m}"
+            if scenario == "norun" and m == 1:
+                continue   # run-mode: no-run — the member sits the run out, as it does in a serial run
             if cp in stopped:
                 continue
             if skip_all:
@@ -120,6 +122,8 @@ def byline_expected(scenario, agree, p, nlines, members=2):
             keep = (keep and matched) if agree else (keep or matched)
         if keep:
             yields.append(L)
+        if len(stopped) == members - (1 if scenario == "norun" else 0) and scenario == "norun":
+            pass   # the run may read on to the end of the file: nobody is left to see the lines
         if len(stopped) == members:
             break
     for j in range(members):
